@@ -66,14 +66,15 @@ struct GenOpts
    uint32 maxTopOps;
    bool allowZeroItemFields; // C01: fields emptied through a sharing Message stay, with no items
    bool allowZeroLenRaw;     // zero-length raw items inside the common repertoire (C08 parse legs; the C builders cannot make them)
+   bool allowEmptiedInPlace; // C01: zero-length raw items whose ByteBuffer was emptied in place (allocation retained)
    bool allowCopies;         // C01: copies of the Message under construction (kept and re-checked at the end, or modified at once), fields swapped out and back, contents swapped
-   GenOpts() : commonRepertoire(false), pythonSafe(false), allowBursts(true), allowNonFlattenable(true), maxDepth(4), maxTopOps(28), allowZeroItemFields(false), allowZeroLenRaw(false), allowCopies(false) {}
+   GenOpts() : commonRepertoire(false), pythonSafe(false), allowBursts(true), allowNonFlattenable(true), maxDepth(4), maxTopOps(28), allowZeroItemFields(false), allowZeroLenRaw(false), allowEmptiedInPlace(false), allowCopies(false) {}
 };
 
 struct GenStats
 {
-   bool hasNaN, crossedInlineArray, hasNonFlattenable, hasZeroLenRaw, hasZeroItemField, sharedSub, heldCopy, mutatedCopy, swappedField; int maxDepth; uint32 numOps; uint32 typesMask; uint32 maxItems;
-   GenStats() : hasNaN(false), crossedInlineArray(false), hasNonFlattenable(false), hasZeroLenRaw(false), hasZeroItemField(false), sharedSub(false), heldCopy(false), mutatedCopy(false), swappedField(false), maxDepth(0), numOps(0), typesMask(0), maxItems(0) {}
+   bool hasNaN, crossedInlineArray, hasNonFlattenable, hasZeroLenRaw, hasZeroItemField, sharedSub, heldCopy, mutatedCopy, swappedField, emptiedInPlace; int maxDepth; uint32 numOps; uint32 typesMask; uint32 maxItems;
+   GenStats() : hasNaN(false), crossedInlineArray(false), hasNonFlattenable(false), hasZeroLenRaw(false), hasZeroItemField(false), sharedSub(false), heldCopy(false), mutatedCopy(false), swappedField(false), emptiedInPlace(false), maxDepth(0), numOps(0), typesMask(0), maxItems(0) {}
 };
 
 static const char * const NAMES[] = {"a", "b", "cc", "", "a_much_longer_field_name_123", "caf\xC3\xA9", "\xE2\x82\xAC", "!SnKy", "x y"};
@@ -130,6 +131,8 @@ private:
             {
                // AddData() documents that zero bytes are rejected; a zero-length raw item can only be built from a ByteBuffer
                ByteBufferRef bb = GetByteBufferFromPool(0);
+               // ... or from one that was filled and then emptied in place (it keeps its allocation: zero bytes of data behind a non-NULL pointer)
+               if ((_o.allowEmptiedInPlace)&&(((fn.Length()+(uint32)(replaceIdx+1)+(prepend?1:0))%2) == 0)) {bb = GetByteBufferFromPool(8); if (bb()) {memset(bb()->GetBuffer(), 'e', 8); (void) bb()->SetNumBytes(0, true);} st.emptiedInPlace = true;}
                if (replaceIdx >= 0) return msg.ReplaceFlat(false, fn, (uint32)replaceIdx, bb);
                return prepend ? msg.PrependFlat(fn, bb) : msg.AddFlat(fn, bb);
             }
